@@ -391,10 +391,11 @@ pub fn finish(cfg: &Config, started: Instant, out: Outcome) -> i32 {
         eprintln!("[avm] {} harness panics: no verdict", harness_panics);
         return 2;
     }
-    if observed < out.floor {
+    let floor = ((out.floor as f64) * cfg.scale.min(1.0)) as u64;
+    if observed < floor {
         eprintln!(
             "[avm] observed too little for a verdict: {} = {} < floor {}",
-            out.floor_counter, observed, out.floor
+            out.floor_counter, observed, floor
         );
         return 2;
     }
